@@ -149,6 +149,7 @@ def run(repo: Repo, chk: Check):
     chk.guarded(r09_exact_integral, repo, chk)
     chk.guarded(r09_opcode_is_text, repo, chk)
     chk.guarded(r09a_rewrites, repo, chk)
+    chk.guarded(r09a_output_kept, repo, chk)
 
 
 # ---------------------------------------------------------------------- R09.b
@@ -695,3 +696,35 @@ def r09a_rewrites(repo: Repo, chk: Check, R="R09.a"):
                     chk.ok(R, key, {"cases": len(combos)})
     if n == 0:
         raise AnalysisError("no statement that rewrites the opcode of an instruction found (expected the branch fusion and the tail call)")
+
+
+# ---------------------------------------------------------------------- R09.a (the destination register of an instruction is not taken away)
+def r09a_output_kept(repo: Repo, chk: Check, R="R09.a"):
+    """<instr>.output = None is legitimate only where the instruction is turned into one that writes no register (its opcode is rewritten
+    next to it).  Anywhere else an instruction that writes a register is printed without its first operand ('pop', 'l db Setting')."""
+    from .shared import fn_ctx, live_ids, guard_atoms
+    n = 0
+    for mn in ("utils", "generate_code", "compile_pass"):
+        m = repo.mod(mn)
+        for fn in m.funcs.values():
+            if not isinstance(fn, (ast.FunctionDef, ast.AsyncFunctionDef)):
+                continue
+            for st in ast.walk(fn):
+                if not (isinstance(st, ast.Assign) and len(st.targets) == 1 and isinstance(st.targets[0], ast.Attribute) and st.targets[0].attr == "output"
+                        and isinstance(st.value, ast.Constant) and st.value.value is None):
+                    continue
+                recv = norm(st.targets[0].value)
+                if recv == "self":
+                    continue
+                n += 1
+                blk = None
+                par = getattr(st, "parent", None)
+                for fld in ("body", "orelse", "finalbody"):
+                    if st in (getattr(par, fld, None) or []):
+                        blk = getattr(par, fld)
+                rewritten = any(isinstance(x, ast.Assign) and any(isinstance(t_, ast.Attribute) and t_.attr == "op" and norm(t_.value) == recv for t_ in x.targets) for x in (blk or []))
+                chk.judge(R, f"{mn}:{fn.qual}:{recv}.output is cleared only together with a rewrite of the opcode", rewritten,
+                          f"{norm(st)} takes the destination register away from an instruction whose opcode stays the same: an instruction that writes a register "
+                          f"(pop, peek, l, rand ...) is then printed without its first operand", None, f"{m.path}:{st.lineno} in {fn.qual}")
+    if n < 1:
+        chk.ok(R, "no instruction has its output cleared", None, vacuous=True)
